@@ -2,7 +2,7 @@
 
 claim("C01",
       "Bounded symbolic model check of the real secs2 constructors, encoders and decoder against an independent E5 reference encoder: "
-      "for every element value (all bit patterns) of every leaf type x argument shape x 0..3 elements, list trees of depth <=2 (thorough: 5 leaf kinds; depth 3 with 2 kinds), "
+      "for every element value (all bit patterns) of every leaf type x argument shape x 0..3 elements, list trees of depth <=2 (thorough: 6 leaf kinds; depth 3 with 2 kinds), "
       "length boundaries 255/256/65535/65536 through the real item code, nesting 63/64/65, slab boundaries 2/6/22(/86) leaves, and the header function over ALL lengths and format codes, "
       "the encoded bytes equal the reference, EncodedLen matches, AppendTo preserves the prefix, encoding is deterministic and Decode returns an Equal item with the same values. "
       "This is the right level because the property is a forall over values whose interesting points (255/256, sign bits, NaN payloads) are rare; the solver decides each path for all values.",
@@ -97,7 +97,7 @@ claim("C18",
       "Trusted: executor + scripted line model, z3. Outside/N-A: end-to-end two-endpoint composition under fault schedules, length-character corruption, multi-block fault scenarios other than the one retransmission.")
 
 claim("C13",
-      "Bounded symbolic model check of the strict SML round trip on the real encoder and parser: ASCII items of 0..2 (thorough 3) bytes over all 256 byte values under 4 joint option/header configurations (thorough: all option combinations and boundary stream/function values), binary/boolean symbolic, all 8-bit integers, wider integers and floats on boundary/witness tables, nesting; "
+      "Bounded symbolic model check of the strict SML round trip on the real encoder and parser: ASCII items of 0..2 bytes over all 256 byte values under 4 joint option/header configurations (thorough: all option combinations and boundary stream/function values), binary/boolean symbolic, all 8-bit integers, wider integers and floats on boundary/witness tables, nesting; "
       "and parser-accepted text templates re-encoded and re-parsed. Rendered text parses back to one message with the same stream/function/W and an Equal body.",
       "Trusted: executor + models (symbolic formatter, host float conversion), z3. Outside: float text beyond witnesses, JIS-8/localized text, symbolic wide integers, longer ASCII items.")
 
